@@ -36,6 +36,17 @@
 (*     fails after creating the archive, before the clean-up, the current  *)
 (*     file stays at its limit and every further write leaves one more     *)
 (*     file (witness configuration, TLC must reject it).                   *)
+(*     Environment dimension (LogListFaults): while a write rolls, an      *)
+(*     entry of the log directory cannot be stat()ed -- the OTHER rolling  *)
+(*     logger of the same folder removed one of its archives between this  *)
+(*     logger's read_dir and fs::metadata (or a dangling link).            *)
+(*     get_log_files() skips such an entry: the roll completes its         *)
+(*     clean-up as ever (no action changes under logBlind).                *)
+(*     ListingDesign = "fail" is the design VARIANT (the code before       *)
+(*     'fix: skip directory entries that cannot be inspected ...') whose   *)
+(*     listing fails as a whole AFTER the rename and BEFORE the removals:  *)
+(*     one file too many, the current file gone, the write refused         *)
+(*     (witness configuration, TLC must reject it).                        *)
 (*  EventDir    proxy_agent_shared/src/telemetry/event_logger.rs start()   *)
 (*     timer tick: queue empty -> nothing; else the queue is drained, the  *)
 (*     directory is listed and, when files >= cap, the drained events are  *)
@@ -83,6 +94,8 @@ CONSTANTS Machine,      \* "log" | "event" | "dumps" | "all"
           RollFaults,   \* BOOLEAN: the environment may make the archive rename fail for a while
           RoomFaults,   \* BOOLEAN: the log file system may have no room for a while
           RollDesign,   \* "rename" (the code) | "copy" (design variant: archive by copy + truncate)
+          LogListFaults,\* BOOLEAN: an entry of the log directory may be un-stat()able while a write rolls
+          ListingDesign,\* "skip" (the code: such entries are skipped) | "fail" (design variant: the listing fails)
           RollKills,    \* BOOLEAN: a run may be killed between the rename and the last removal of a roll, then restarted
           \* --- event directory
           Cap,          \* max_event_file_count
@@ -106,6 +119,7 @@ VARIABLES
   rolled,    \* ghost: a roll happened since the directory was found
   logLegal,  \* ghost: the directory found at start could have been left by this logger (room for the current file)
   debt,      \* ghost (CrashPoints / RollKills): kills in the middle of archive_file since the last completed roll
+  logBlind,  \* environment: an entry of the log directory cannot be stat()ed at present
   noRoom,    \* environment: no data block can be allocated on the log file system at present
   rollFails, \* environment: fs::rename of the current file fails at present (appending still works)
   \* event directory
@@ -121,7 +135,7 @@ VARIABLES
   dWritten,  \* ghost: write_all ran its clean-up at least once
   listFails  \* environment: search_files on the dump directory fails at present
 
-logVars  == <<arch, cur, lw, rolled, logLegal, debt, rollFails, noRoom>>
+logVars  == <<arch, cur, lw, rolled, logLegal, debt, rollFails, noRoom, logBlind>>
 evVars   == <<evFiles, evTmp, evQueue, evRun, evLegal>>
 dumpVars == <<dumps, nextId, dLegal, dWritten, listFails>>
 vars     == <<logVars, evVars, dumpVars>>
@@ -165,7 +179,7 @@ LogInit ==
             /\ cur \in PreCur \cup {-1}
        ELSE arch = <<>> /\ cur = -1
   /\ lw = IF cur < Limit THEN 0 ELSE cur - Limit + 1   \* the smallest last write that explains the size found
-  /\ rolled = FALSE /\ debt = 0 /\ rollFails = FALSE /\ noRoom = FALSE
+  /\ rolled = FALSE /\ debt = 0 /\ rollFails = FALSE /\ noRoom = FALSE /\ logBlind = FALSE
   /\ logLegal = (Len(arch) + 1 <= MaxCount)
 
 EvInit ==
@@ -192,22 +206,25 @@ LogOnly == On("log") /\ UNCHANGED <<evVars, dumpVars>>
 CurOpened == IF cur < 0 THEN 0 ELSE cur          \* open_file
 ShouldRoll == CurOpened >= Limit                 \* `file_length >= self.max_log_file_size`, checked BEFORE appending
 Renamed == Append(arch, CurOpened)               \* fs::rename(current, name.<utc>-<nanos>.log); the current file is gone
+\* get_log_files() inside archive_file succeeds: always in the code ("skip": an entry that cannot be inspected is not
+\* one of this log's files), not while such an entry exists in the design variant "fail"
+ListingWorks == logBlind => ListingDesign = "skip"
 Trimmed == Drop(Renamed, Excess(Len(Renamed), MaxCount))   \* get_log_files() + removal loop (oldest = first by name)
 
 LogWriteNoRoll(n) ==         \* appending works whether or not the rename would
   /\ LogOnly /\ ~ShouldRoll /\ ~noRoom
   /\ cur' = CurOpened + n /\ lw' = n
-  /\ UNCHANGED <<arch, rolled, logLegal, debt, rollFails, noRoom>>
+  /\ UNCHANGED <<arch, rolled, logLegal, debt, rollFails, noRoom, logBlind>>
 
 LogWriteRollKeep(n) ==       \* roll, nothing to delete yet
-  /\ LogOnly /\ ShouldRoll /\ ~rollFails /\ ~noRoom /\ Excess(Len(Renamed), MaxCount) = 0
+  /\ LogOnly /\ ShouldRoll /\ ~rollFails /\ ~noRoom /\ ListingWorks /\ Excess(Len(Renamed), MaxCount) = 0
   /\ arch' = Renamed /\ cur' = n /\ lw' = n /\ rolled' = TRUE /\ debt' = 0
-  /\ UNCHANGED <<logLegal, rollFails, noRoom>>
+  /\ UNCHANGED <<logLegal, rollFails, noRoom, logBlind>>
 
 LogWriteRollTrim(n) ==       \* roll and delete the oldest archived files
-  /\ LogOnly /\ ShouldRoll /\ ~rollFails /\ ~noRoom /\ Excess(Len(Renamed), MaxCount) > 0
+  /\ LogOnly /\ ShouldRoll /\ ~rollFails /\ ~noRoom /\ ListingWorks /\ Excess(Len(Renamed), MaxCount) > 0
   /\ arch' = Trimmed /\ cur' = n /\ lw' = n /\ rolled' = TRUE /\ debt' = 0
-  /\ UNCHANGED <<logLegal, rollFails, noRoom>>
+  /\ UNCHANGED <<logLegal, rollFails, noRoom, logBlind>>
 
 \* `self.roll_if_needed()?` with archive_file's fs::rename failing: the error is returned before open_file/append,
 \* the write of n is REFUSED and every file keeps its size
@@ -219,43 +236,60 @@ LogWriteRollFails(n) ==
 LogFaultOn ==
   /\ LogOnly /\ RollFaults /\ ~rollFails /\ cur >= 0
   /\ rollFails' = TRUE
-  /\ UNCHANGED <<arch, cur, lw, rolled, logLegal, debt, noRoom>>
+  /\ UNCHANGED <<arch, cur, lw, rolled, logLegal, debt, noRoom, logBlind>>
 
 LogFaultOff ==
   /\ LogOnly /\ rollFails
   /\ rollFails' = FALSE
-  /\ UNCHANGED <<arch, cur, lw, rolled, logLegal, debt, noRoom>>
+  /\ UNCHANGED <<arch, cur, lw, rolled, logLegal, debt, noRoom, logBlind>>
 
 \* No room on the log file system.  The write of n without a roll: open_file (creates the EMPTY current file when
 \* absent: no data block needed), the append fails, the write is REFUSED.
 LogWriteNoRoomNoRoll(n) ==
   /\ LogOnly /\ noRoom /\ ~ShouldRoll
   /\ cur' = CurOpened /\ lw' = IF cur < 0 THEN 0 ELSE lw
-  /\ UNCHANGED <<arch, rolled, logLegal, debt, rollFails, noRoom>>
+  /\ UNCHANGED <<arch, rolled, logLegal, debt, rollFails, noRoom, logBlind>>
 
 \* ... with a roll, as the code does it: fs::rename, the removals (they free room), File::create of the new current
 \* file -- none of them needs room, the roll COMPLETES --, then the append fails and the write is refused.
 LogWriteNoRoomRoll(n) ==
-  /\ LogOnly /\ noRoom /\ ShouldRoll /\ ~rollFails /\ RollDesign = "rename"
+  /\ LogOnly /\ noRoom /\ ShouldRoll /\ ~rollFails /\ ListingWorks /\ RollDesign = "rename"
   /\ arch' = Trimmed /\ cur' = 0 /\ lw' = 0 /\ rolled' = TRUE /\ debt' = 0
-  /\ UNCHANGED <<logLegal, rollFails, noRoom>>
+  /\ UNCHANGED <<logLegal, rollFails, noRoom, logBlind>>
 
 \* DESIGN VARIANT (RollDesign = "copy"): archive by fs::copy + truncate.  The copy creates the archive and fails for
 \* want of room BEFORE the clean-up; the current file keeps its size (still at the limit); the write is refused.
 LogWriteNoRoomCopyFails(n) ==
   /\ LogOnly /\ noRoom /\ ShouldRoll /\ ~rollFails /\ RollDesign = "copy"
   /\ arch' = Append(arch, 0)
-  /\ UNCHANGED <<cur, lw, rolled, logLegal, debt, rollFails, noRoom>>
+  /\ UNCHANGED <<cur, lw, rolled, logLegal, debt, rollFails, noRoom, logBlind>>
+
+\* DESIGN VARIANT (ListingDesign = "fail"): fs::rename done, get_log_files()? fails on the entry that cannot be
+\* stat()ed: no removal, no new current file, the write of n is refused
+LogWriteRollListingFails(n) ==
+  /\ LogOnly /\ ShouldRoll /\ ~rollFails /\ logBlind /\ ListingDesign = "fail"
+  /\ arch' = Renamed /\ cur' = -1 /\ lw' = 0
+  /\ UNCHANGED <<rolled, logLegal, debt, rollFails, noRoom, logBlind>>
+
+LogListingBreaks ==
+  /\ LogOnly /\ LogListFaults /\ ~logBlind
+  /\ logBlind' = TRUE
+  /\ UNCHANGED <<arch, cur, lw, rolled, logLegal, debt, rollFails, noRoom>>
+
+LogListingHeals ==
+  /\ LogOnly /\ logBlind
+  /\ logBlind' = FALSE
+  /\ UNCHANGED <<arch, cur, lw, rolled, logLegal, debt, rollFails, noRoom>>
 
 LogNoRoomOn ==
   /\ LogOnly /\ RoomFaults /\ ~noRoom
   /\ noRoom' = TRUE
-  /\ UNCHANGED <<arch, cur, lw, rolled, logLegal, debt, rollFails>>
+  /\ UNCHANGED <<arch, cur, lw, rolled, logLegal, debt, rollFails, logBlind>>
 
 LogNoRoomOff ==
   /\ LogOnly /\ noRoom
   /\ noRoom' = FALSE
-  /\ UNCHANGED <<arch, cur, lw, rolled, logLegal, debt, rollFails>>
+  /\ UNCHANGED <<arch, cur, lw, rolled, logLegal, debt, rollFails, logBlind>>
 
 \* The run is killed inside archive_file during a write: after fs::rename and j of the removals that were due (not
 \* all of them), before the current file is re-created; the process is started again and finds the directory so.
@@ -266,7 +300,7 @@ LogKilledInRoll(j) ==
   /\ arch' = Drop(Renamed, j) /\ cur' = -1 /\ lw' = 0
   /\ rolled' = FALSE            \* the directory is found anew, no roll has completed since
   /\ debt' = debt + 1
-  /\ UNCHANGED <<logLegal, rollFails, noRoom>>
+  /\ UNCHANGED <<logLegal, rollFails, noRoom, logBlind>>
   /\ evQueue' = 0 /\ evRun' = TRUE
   /\ UNCHANGED <<evFiles, evTmp, evLegal, dumpVars>>
 
@@ -277,14 +311,14 @@ LogKillBeforeAppend ==
   /\ IF ShouldRoll THEN arch' = Trimmed /\ cur' = 0 /\ rolled' = TRUE /\ debt' = 0
                    ELSE arch' = arch /\ cur' = CurOpened /\ rolled' = rolled /\ debt' = debt
   /\ lw' = IF ShouldRoll \/ cur < 0 THEN 0 ELSE lw
-  /\ UNCHANGED <<logLegal, rollFails, noRoom>>
+  /\ UNCHANGED <<logLegal, rollFails, noRoom, logBlind>>
 \* after the rename and j of the removals, before the current file is re-created
 LogKillInArchive(j) ==
   /\ LogOnly /\ CrashPoints /\ ShouldRoll /\ ~rollFails
   /\ j \in 0..Excess(Len(Renamed), MaxCount)
   /\ arch' = Drop(Renamed, j) /\ cur' = -1 /\ lw' = 0
   /\ debt' = IF j < Excess(Len(Renamed), MaxCount) THEN debt + 1 ELSE debt
-  /\ UNCHANGED <<rolled, logLegal, rollFails, noRoom>>
+  /\ UNCHANGED <<rolled, logLegal, rollFails, noRoom, logBlind>>
 
 LogNext == \/ \E n \in 1..MaxWrite : \/ LogWriteNoRoll(n)
                                      \/ LogWriteRollKeep(n)
@@ -292,7 +326,8 @@ LogNext == \/ \E n \in 1..MaxWrite : \/ LogWriteNoRoll(n)
                                      \/ LogWriteRollFails(n)
                                      \/ LogWriteNoRoomNoRoll(n) \/ LogWriteNoRoomRoll(n)
                                      \/ LogWriteNoRoomCopyFails(n)
-           \/ LogFaultOn \/ LogFaultOff \/ LogNoRoomOn \/ LogNoRoomOff
+                                     \/ LogWriteRollListingFails(n)
+           \/ LogFaultOn \/ LogFaultOff \/ LogNoRoomOn \/ LogNoRoomOff \/ LogListingBreaks \/ LogListingHeals
            \/ LogKillBeforeAppend
            \/ \E j \in 0..(PreArch + 2) : LogKillInArchive(j) \/ LogKilledInRoll(j)
 
@@ -423,7 +458,7 @@ Spec == Init /\ [][Next]_vars
 
 \* the sizes of the archived files never influence a later step (only their number does): the configuration that
 \* explores kills inside rolls identifies states up to those sizes
-CountView == <<Len(arch), cur, lw, rolled, logLegal, debt, rollFails, noRoom, evVars, dumpVars>>
+CountView == <<Len(arch), cur, lw, rolled, logLegal, debt, rollFails, noRoom, logBlind, evVars, dumpVars>>
 
 \* model bounds (state constraint)
 Bounded == nextId <= MaxIds + 1 /\ debt <= 2
@@ -432,7 +467,7 @@ Bounded == nextId <= MaxIds + 1 /\ debt <= 2
 \* Invariants (after EVERY step) and step properties.
 
 TypeOK == /\ arch \in Seq(Nat) /\ cur \in Int /\ cur >= -1 /\ lw \in Nat
-          /\ noRoom \in BOOLEAN /\ listFails \in BOOLEAN
+          /\ noRoom \in BOOLEAN /\ listFails \in BOOLEAN /\ logBlind \in BOOLEAN
           /\ rollFails \in BOOLEAN /\ (rollFails => RollFaults /\ cur >= 0)
           /\ evFiles \in Nat /\ evTmp \in Nat /\ evQueue \in 0..QueueBound /\ evRun \in BOOLEAN
           /\ dumps \in Seq(Nat) /\ nextId \in Nat
